@@ -169,6 +169,47 @@ Compact(d, inv, nvs) ==
       vc1 == [[d.vc EXCEPT ![iv + 1] = d.vc[src + 1]] EXCEPT ![src + 1] = INV] IN
   Compact([d EXCEPT !.ctv = m, !.vc = vc1], Tail(inv), n2 - 1)
 
+\* ---------------------------------------------------------------- the order in which the attribute decoder visits the vertices
+\* MeshTraversalSequencer + DepthFirstTraverser (traversal method 0) over the decoded corner table: from corner 3f of every face f in turn, a depth
+\* first walk over faces that prefers the right neighbour; a vertex is reported when first met (with the corner it was met at).  The k-th reported
+\* vertex receives the k-th attribute value of the stream.  t = [fv, vv, order, stack, err]: visited faces / vertices, reported points, corner stack.
+RC(d, c) == Opp(d, Nx(c))                                       \* GetRightCorner
+LC(d, c) == Opp(d, Pv(c))                                       \* GetLeftCorner
+FaceOf(c) == IF c = INV THEN INV ELSE c \div 3
+FVis(t, f) == f = INV \/ f \in t.fv                             \* IsFaceVisited(kInvalidFaceIndex) is true
+OnBoundary(d, v) == SwingL(d, d.vc[v + 1]) = INV
+Report(d, t, v, c) == IF v \in t.vv THEN t ELSE [t EXCEPT !.vv = @ \cup {v}, !.order = Append(@, d.ctv[c])]
+Pop(st) == SubSeq(st, 1, Len(st) - 1)
+RECURSIVE TInner(_, _, _, _, _), TOuter(_, _, _)
+TInner(d, t, c, f, fuel) ==
+  IF fuel = 0 THEN [t EXCEPT !.err = "ub:traversal-does-not-end"] ELSE
+  IF c = INV THEN [t EXCEPT !.err = "ub:traversal-marks-an-invalid-face"] ELSE
+  LET t1 == [t EXCEPT !.fv = @ \cup {f}]  v == Vtx(d, c) IN
+  IF v = INV THEN [t1 EXCEPT !.err = "rej:traversal-invalid-vertex"] ELSE
+  LET newv == v \notin t1.vv
+      t2 == Report(d, t1, v, c)
+  IN IF newv /\ ~OnBoundary(d, v) THEN TInner(d, t2, RC(d, c), FaceOf(RC(d, c)), fuel - 1)
+     ELSE LET rc == RC(d, c)  lc == LC(d, c)  rv == FVis(t2, FaceOf(rc))  lv == FVis(t2, FaceOf(lc)) IN
+          IF rv THEN (IF lv THEN [t2 EXCEPT !.stack = Pop(@)] ELSE TInner(d, t2, lc, FaceOf(lc), fuel - 1))
+          ELSE IF lv THEN TInner(d, t2, rc, FaceOf(rc), fuel - 1)
+          ELSE [t2 EXCEPT !.stack = Append(SetTop(@, lc), rc)]
+TOuter(d, t, fuel) ==
+  IF t.err # "" \/ t.stack = <<>> THEN t ELSE
+  IF fuel = 0 THEN [t EXCEPT !.err = "ub:traversal-does-not-end"] ELSE
+  LET c == t.stack[Len(t.stack)] IN
+  IF c = INV \/ FVis(t, FaceOf(c)) THEN TOuter(d, [t EXCEPT !.stack = Pop(@)], fuel - 1)
+  ELSE TOuter(d, TInner(d, t, c, FaceOf(c), fuel), fuel - 1)
+FromCorner(d, t, c0, fuel) ==
+  IF t.err # "" \/ FVis(t, FaceOf(c0)) THEN t ELSE
+  LET nvx == Vtx(d, Nx(c0))  pvx == Vtx(d, Pv(c0)) IN
+  IF nvx = INV \/ pvx = INV THEN [t EXCEPT !.err = "rej:traversal-invalid-vertex"] ELSE
+  TOuter(d, [Report(d, Report(d, t, nvx, Nx(c0)), pvx, Pv(c0)) EXCEPT !.stack = <<c0>>], fuel)
+RECURSIVE TFaces(_, _, _, _, _)
+TFaces(d, t, f, nf, fuel) == IF f = nf THEN t ELSE TFaces(d, FromCorner(d, t, 3 * f, fuel), f + 1, nf, fuel)
+Traverse(d, nf) == TFaces(d, [fv |-> {}, vv |-> {}, order |-> <<>>, stack |-> <<>>, err |-> ""], 0, nf, 6 * nf + 12)
+\* value index per point (-1: the point is never reported): what the position attribute of an accepted mesh looks like, point by point
+VIdx(order, np) == [p \in 1..np |-> IF \E k \in 1..Len(order) : order[k] = p - 1 THEN (CHOOSE k \in 1..Len(order) : order[k] = p - 1) - 1 ELSE -1]
+
 \* ---------------------------------------------------------------- the whole connectivity decode
 \* syms in DECODER order; ev = <<src, split, edge>> triples ascending in src; sb = start-face bits
 Decode(syms, nv, nf, nss, ev, sb) ==
@@ -182,7 +223,7 @@ Decode(syms, nv, nf, nss, ev, sb) ==
   IF d2.faces # nf THEN [out |-> "rej:face-count", np |-> 0, faces |-> <<>>] ELSE
   LET r == Compact(d2, d2.inval, Len(d2.vc)) IN
   IF r.d.out # "run" THEN [out |-> r.d.out, np |-> 0, faces |-> <<>>]
-  ELSE [out |-> "acc", np |-> r.nvs, faces |-> [c \in 1..(3 * nf) |-> r.d.ctv[c - 1]]]
+  ELSE [out |-> "acc", np |-> r.nvs, faces |-> [c \in 1..(3 * nf) |-> r.d.ctv[c - 1]], d |-> r.d]
 
 \* ---------------------------------------------------------------- the valence traversal (MeshEdgebreakerTraversalValenceDecoder)
 \* The symbols are not one string: they sit in 6 context vectors (one per clamped valence 2..7 of the vertex the traversal is about to
@@ -244,8 +285,11 @@ DecodeV(syms, nv, nf, nss, ev, sb) ==
   IF d2.faces # nf THEN [out |-> "rej:face-count", np |-> 0, faces |-> <<>>, ctx |-> ctx] ELSE
   LET r == Compact(d2, d2.inval, Len(d2.vc)) IN
   IF r.d.out # "run" THEN [out |-> r.d.out, np |-> 0, faces |-> <<>>, ctx |-> ctx]
-  ELSE [out |-> "acc", np |-> r.nvs, faces |-> [c \in 1..(3 * nf) |-> r.d.ctv[c - 1]], ctx |-> ctx]
+  ELSE [out |-> "acc", np |-> r.nvs, faces |-> [c \in 1..(3 * nf) |-> r.d.ctv[c - 1]], ctx |-> ctx, d |-> r.d]
 
+\* the attribute order of an accepted connectivity: [trav |-> "" | "rej:.." | "ub:..", vidx |-> value index per point]
+Order(r, nf) == IF r.out # "acc" THEN [trav |-> "", vidx |-> <<>>]
+                ELSE LET t == Traverse(r.d, nf) IN [trav |-> t.err, vidx |-> IF t.err = "" THEN VIdx(t.order, r.np) ELSE <<>>]
 \* what C03 demands of an accepted connectivity: every face names three existing points
 ConnValid(r) == r.out = "acc" => \A i \in 1..Len(r.faces) : r.faces[i] \in 0..(r.np - 1)
 =============================================================================
